@@ -3,10 +3,9 @@
    s is reachable from `init K ext roots` by any sequence of labels (any interleaving, any fault
    choice, cancellation of the caller's context at any point). *)
 From Coq Require Import List Arith Bool Lia.
-From Oras Require Import Model.CopyImpl Proofs.CopyImplBase Proofs.CopyImplInv Proofs.CopyImplInv2 Proofs.CopyImplLive
+From Oras Require Import Model.CopyImpl Model.CopyImplDst Model.CopyAbs Proofs.CopyImplBase Proofs.CopyImplInv Proofs.CopyImplInv2 Proofs.CopyImplLive
   Proofs.CopyImplDeadlock Proofs.CopyImplFault Proofs.CopyImplTerm Proofs.CopyImplSucc Proofs.CopyImplSucc2
-  Proofs.CopyImplOrder Proofs.CopyImplNoFault Model.CopyImplDst Proofs.CopyImplDst Proofs.CopyImplRefine
-  Generated.GC02 Model.CopyImplSrc Proofs.CopyImplSrc.
+  Proofs.CopyImplOrder Proofs.CopyImplNoFault Proofs.CopyImplDst Proofs.CopyAbsProto.
 Import ListNotations.
 
 Theorem C04_permits_conserved : forall succ K ext roots s, Reachable succ K ext roots s ->
@@ -146,127 +145,66 @@ Theorem C02_nofault_returns_nil_protocol : forall succ K ext roots,
 Proof. exact nofault_returns_nil. Qed.
 Print Assumptions C02_nofault_returns_nil_protocol.
 
-(* ------------------------------------------------------------------------------------------------
-   THE DESTINATION INSIDE THE PROTOCOL MODEL (Model/CopyImplDst.v): the state is the protocol state
-   plus the destination content d; dst.Exists answers what d holds, a push that returns nil stores
-   its node, a push may fail before or AFTER it stored (DPushStoredFail), nothing else writes d.
-   `DReachable succ K ext roots d0 x`: x is reachable from the call's initial state on a destination
-   holding d0, by any interleaving, any fault placement, any cancellation point.
-   `closed succ d`: every stored node has all its successors stored.  These are the clauses of C02
-   themselves, derived from the mechanism (done channels closed only on success, waits before the
-   push, cancel-cause contexts) - not from an acceptor whose guards are the property. *)
+(* ---- The protocol WITH A DESTINATION (Model/CopyImplDst.v): a state is a protocol state plus the set of
+   nodes the destination holds; dst.Exists answers by that set, a successful copyNode stores its node, a
+   failing one may have stored it (DPushFailStored).  `DReachable succ K ext roots d0 x`: x is reachable from
+   the initial protocol state with destination content d0 by any sequence of labels -- every interleaving
+   of tasks / permits / done channels / cancel-cause contexts, every fault and cancellation choice.
+   This is the property C02 itself at the granularity of the protocol. ---- *)
 
-(* the destination is link-closed at every instant - failed, cancelled, unfinished executions
-   included; a node that is Done in the tracker is stored; the initial content is never lost *)
-Theorem C02_dst_closed_always_protocol : forall succ K ext roots d0,
+(* the destination is link-closed at every reachable state: successful, failed, cancelled, unfinished *)
+Theorem C02_closed_always_protocol : forall succ K ext roots d0,
   (forall n m, In m (succ n) -> m < n) ->
-  forall x, closed succ d0 -> DReachable succ K ext roots d0 x ->
-  closed succ (d_dst x) /\
-  (forall m, is_done (tracker (d_st x) m) = true -> d_dst x m = true) /\
-  (forall n, d0 n = true -> d_dst x n = true).
-Proof. exact dst_closed_always. Qed.
-Print Assumptions C02_dst_closed_always_protocol.
+  forall x, dclosed succ d0 -> DReachable succ K ext roots d0 x -> dclosed succ (dd x).
+Proof. exact dclosed_always. Qed.
+Print Assumptions C02_closed_always_protocol.
 
-(* no push stores a node before all of that node's successors are stored - also a push that stores
-   and then reports an error *)
-Theorem C02_push_stores_after_successors_protocol : forall succ K ext roots d0,
+(* no push step -- successful, failing, or failing after having stored the content -- is enabled before
+   every successor of its node is in the destination *)
+Theorem C02_push_after_successors_protocol : forall succ K ext roots d0,
   (forall n m, In m (succ n) -> m < n) ->
-  forall x dl x' n, closed succ d0 -> DReachable succ K ext roots d0 x ->
-  dstep succ x dl = Some x' -> stores (d_st x) dl = Some n ->
-  forall m, In m (succ n) -> d_dst x m = true.
-Proof. exact push_stores_after_successors. Qed.
-Print Assumptions C02_push_stores_after_successors_protocol.
+  forall x dl x' t, DReachable succ K ext roots d0 x -> dstep succ x dl = Some x' ->
+  (exists ok, dl = DL (LPush t ok)) \/ dl = DPushFailStored t ->
+  forall m, In m (succ (t_node (tasks (ds x) t))) -> In m (dd x).
+Proof. exact dpush_after_successors. Qed.
+Print Assumptions C02_push_after_successors_protocol.
 
-(* content enters the destination only through a push step of the call *)
-Theorem C02_dst_written_only_by_push_protocol : forall succ x dl x' n, dstep succ x dl = Some x' ->
-  d_dst x' n = true -> d_dst x n = true \/ stores (d_st x) dl = Some n.
-Proof. exact dst_written_only_by_push. Qed.
-Print Assumptions C02_dst_written_only_by_push_protocol.
-
-(* a successful return: everything reachable from every root is stored *)
+(* success: everything reachable from every root is in the destination *)
 Theorem C02_success_complete_protocol : forall succ K ext roots d0,
   (forall n m, In m (succ n) -> m < n) ->
-  forall x, closed succ d0 -> DReachable succ K ext roots d0 x -> result (d_st x) = Some false ->
-  forall r, In r roots -> forall n, reach succ r n -> d_dst x n = true.
-Proof. exact success_complete. Qed.
+  forall x, dclosed succ d0 -> DReachable succ K ext roots d0 x -> result (ds x) = Some false ->
+  forall r n, In r roots -> dreach succ r n -> In n (dd x).
+Proof. exact dsuccess_complete. Qed.
 Print Assumptions C02_success_complete_protocol.
 
-(* with the Exists answers determined by the destination the system still never deadlocks, and its
-   executions are as bounded as those of the protocol model *)
-Theorem C02_no_deadlock_dst_protocol : forall succ K ext roots d0,
+(* retry: after ANY reachable state of a first call (failed, cancelled, abandoned), a second call -- any K,
+   CopyGraph or ExtendedCopyGraph, any roots -- in which nothing fails and which has ended (it does end:
+   C02_no_deadlock + C02_terminates) returned nil, left the destination link-closed, and the destination holds
+   everything reachable from its roots.  All three clauses of "re-running it without faults completes the
+   graph" in one statement about the operational model. *)
+Theorem C02_rerun_completes_protocol : forall succ K1 ext1 roots1 K2 ext2 roots2 d0,
+  (forall n m, In m (succ n) -> m < n) -> dclosed succ d0 ->
+  forall x1, DReachable succ K1 ext1 roots1 d0 x1 ->
+  forall ls x2, drun succ (dinit K2 ext2 roots2 (dd x1)) ls = Some x2 ->
+  existsb is_fault (map dlab ls) = false -> is_final (ds x2) = true ->
+  result (ds x2) = Some false /\
+  dclosed succ (dd x2) /\
+  forall r n, In r roots2 -> dreach succ r n -> In n (dd x2).
+Proof. exact drerun_completes. Qed.
+Print Assumptions C02_rerun_completes_protocol.
+
+(* Refinement to the abstract specification Model/CopyAbs.v (shared with the spec-level part): every step of the
+   protocol system with a destination taken before the top-level call has returned is an abstract step -- a
+   push (successful, or failing after it stored) is a store whose guard "all successors held" holds, the return
+   of the top-level syncutil.Go is the abstract return (nil only when the closure of the roots is held), every
+   other protocol step is a stutter. *)
+Theorem C02_protocol_refines_abstract : forall succ K ext roots d0,
   (forall n m, In m (succ n) -> m < n) ->
-  forall x, 1 <= K -> DReachable succ K ext roots d0 x -> is_final (d_st x) = false ->
-  exists dl x', dprogress_label dl = true /\ dstep succ x dl = Some x'.
-Proof. exact dno_deadlock. Qed.
-Print Assumptions C02_no_deadlock_dst_protocol.
-
-Theorem C02_terminates_dst_protocol : forall succ K ext roots d0,
-  (forall n m, In m (succ n) -> m < n) -> forall N, (forall r, In r roots -> r < N) ->
-  forall ls x, drun succ (dinit K ext roots d0) ls = Some x -> length ls <= bound succ ext roots N.
-Proof. exact dterminates. Qed.
-Print Assumptions C02_terminates_dst_protocol.
-
-(* one call on a closed destination, end to end: closed throughout and nothing lost; once the call
-   has returned: a fault or cancellation => error; no fault => nil and the whole graph is stored *)
-Theorem C02_call_summary_protocol : forall succ K ext roots d0,
-  (forall n m, In m (succ n) -> m < n) ->
-  forall ls x, closed succ d0 -> drun succ (dinit K ext roots d0) ls = Some x ->
-  closed succ (d_dst x) /\
-  (forall n, d0 n = true -> d_dst x n = true) /\
-  (is_final (d_st x) = true ->
-     (existsb dis_fault ls = true -> result (d_st x) = Some true) /\
-     (existsb dis_fault ls = false -> result (d_st x) = Some false /\
-        forall r, In r roots -> forall n, reach succ r n -> d_dst x n = true)).
-Proof. exact call_summary. Qed.
-Print Assumptions C02_call_summary_protocol.
-
-(* retry: after ANY first call (failed, cancelled, abandoned at any point, any K / roots), a second
-   call without faults on what the first one left, once it has returned, returned nil and the
-   destination holds everything reachable from its roots *)
-Theorem C02_retry_completes_protocol : forall succ K1 ext1 roots1 K2 ext2 roots2 d0 ls1 x1 ls2 x2,
-  (forall n m, In m (succ n) -> m < n) -> closed succ d0 ->
-  drun succ (dinit K1 ext1 roots1 d0) ls1 = Some x1 ->
-  drun succ (dinit K2 ext2 roots2 (d_dst x1)) ls2 = Some x2 ->
-  existsb dis_fault ls2 = false -> is_final (d_st x2) = true ->
-  result (d_st x2) = Some false /\ closed succ (d_dst x2) /\
-  (forall r, In r roots2 -> forall n, reach succ r n -> d_dst x2 n = true) /\
-  (forall n, d0 n = true -> d_dst x2 n = true).
-Proof. exact retry_completes. Qed.
-Print Assumptions C02_retry_completes_protocol.
-
-(* REFINEMENT.  The abstract specification of a copy call (Proofs/CopyImplRefine.v: astep) has the
-   clauses of C02 as its guards: a node is stored only when all its successors are stored, a fault or
-   a cancellation taints the call, the call returns an error only when tainted and nil only when
-   untainted with everything reachable from the roots stored.  Every execution of the protocol LTS
-   with destination - any interleaving, fault placement, cancellation point, and (drun is prefix
-   closed) any prefix - is, on its visible events (dtrace: stores, faults, cancel, the top-level
-   return), a run of that specification ending in (the destination reached, "a fault occurred"). *)
-Theorem C02_refines_abstract_spec_protocol : forall succ K ext roots d0,
-  (forall n m, In m (succ n) -> m < n) -> closed succ d0 ->
-  forall ls x, drun succ (dinit K ext roots d0) ls = Some x ->
-  aruns succ roots (mkA d0 false) (dtrace succ (dinit K ext roots d0) ls) (mkA (d_dst x) (existsb dis_fault ls)).
-Proof. exact refines_abstract_spec. Qed.
-Print Assumptions C02_refines_abstract_spec_protocol.
-
-(* and the abstract specification has the property: closed stays closed, taint and content are kept *)
-Theorem C02_abstract_spec_sound_protocol : forall succ roots a es a', aruns succ roots a es a' ->
-  closed succ (a_dst a) ->
-  closed succ (a_dst a') /\ (a_taint a = true -> a_taint a' = true) /\
-  (forall n, a_dst a n = true -> a_dst a' n = true).
-Proof. exact abstract_spec_sound. Qed.
-Print Assumptions C02_abstract_spec_sound_protocol.
-
-(* TIE TO THE SOURCE.  The program-counter order of the model (Model/CopyImplSrc.v: which Go calls each
-   pc stands for) equals the call sequences that the translator re-reads from copy.go (copyGraph incl.
-   fn), internal/syncutil/limit.go (Go, LimitedRegion.Start / End) and extendedcopy.go on every run:
-   TryCommit, [defer close], Exists, FindSuccessors, region.End BEFORE the nested syncutil.Go, the wait
-   loop's TryCommit, region.Start, then the copy; Go = dispatch (LimitRegion, Start, eg.Go), child
-   (deferred End, fn), Wait, Cause; the outer closure = End, copyGraph, Start. *)
-Theorem C02_source_order_protocol :
-  c02proto_calls_fn = fn_calls /\ c02proto_calls_go = go_calls /\ c02proto_calls_ext = ext_calls /\
-  c02proto_calls_start = start_calls /\ c02proto_calls_end = end_calls.
-Proof. exact source_order. Qed.
-Print Assumptions C02_source_order_protocol.
+  forall x dl x', dclosed succ d0 -> DReachable succ K ext roots d0 x ->
+  result (ds x) = None -> dstep succ x dl = Some x' ->
+  exists l, astep succ (proot roots) pheld (pabs x) l (pabs x').
+Proof. exact dstep_refines. Qed.
+Print Assumptions C02_protocol_refines_abstract.
 
 (* ---- the hypotheses are satisfiable: a concrete DAG (4 -> 3,2 ; 3 -> 1,2 ; 2 -> 0,1), complete runs *)
 Definition ex_succ (n : nat) : list nat :=
@@ -299,34 +237,18 @@ Proof. vm_compute. repeat split; reflexivity. Qed.
 Example ex_nonfinal : Reachable ex_succ 1 false [4] (init 1 false [4]) /\ is_final (init 1 false [4]) = false.
 Proof. split. apply R_init. reflexivity. Qed.
 
-(* the destination theorems' hypotheses are satisfiable: destination {0,1} (closed), first call with K = 1
-   whose first push stores node 2's successor... and then fails: the call returns an error, the
-   destination stays closed; the fault-free retry with K = 2 returns nil and everything is stored *)
-Example ex_closed_d0 : closed ex_succ (dst_of_list [0; 1]).
-Proof. intros n Hn m Hm. do 2 (destruct n as [|n]; [cbn in Hm; contradiction|]). cbn in Hn. discriminate. Qed.
-Example ex_fault_then_retry :
-  let d0 := dst_of_list [0; 1] in
-  let ls1 := snd (dsched ex_succ dpick_late 400 (dinit 1 false [4] d0) []) in
-  existsb dis_fault ls1 = true /\
-  match drun ex_succ (dinit 1 false [4] d0) ls1 with
-  | Some x1 =>
-      result (d_st x1) = Some true /\ map (d_dst x1) [0; 1; 2; 3; 4] = [true; true; true; false; false] /\
-      let ls2 := snd (dsched ex_succ dpick_progress 400 (dinit 2 false [4] (d_dst x1)) []) in
-      existsb dis_fault ls2 = false /\
-      match drun ex_succ (dinit 2 false [4] (d_dst x1)) ls2 with
-      | Some x2 => result (d_st x2) = Some false /\ forallb (d_dst x2) [0; 1; 2; 3; 4] = true /\ free (d_st x2) = 2
-      | None => False
-      end
-  | None => False
-  end.
+(* with the destination: K = 2, CopyGraph from root 4 into a destination that already holds the closed set
+   {0, 1}; the first enabled push fails; the call returns an error and the destination is closed; a fault-free
+   second run (K = 1) from what is left returns nil and holds all five nodes *)
+Definition is_push_fail (l : label) : bool := match l with LPush _ false => true | _ => false end.
+Example ex_run_dst :
+  let r1 := dsched ex_succ is_push_fail 120 (dinit 2 false [4] [0; 1]) [] in
+  let x1 := fst r1 in
+  existsb is_fault (map dlab (snd r1)) = true /\
+  is_final (ds x1) = true /\ result (ds x1) = Some true /\ dclosedb ex_succ (dd x1) = true /\
+  let r2 := dsched ex_succ (fun _ => false) 120 (dinit 1 false [4] (dd x1)) [] in
+  let x2 := fst r2 in
+  drun ex_succ (dinit 1 false [4] (dd x1)) (snd r2) = Some x2 /\
+  existsb is_fault (map dlab (snd r2)) = false /\ is_final (ds x2) = true /\
+  result (ds x2) = Some false /\ forallb (fun n => dmem n (dd x2)) [0; 1; 2; 3; 4] = true.
 Proof. vm_compute. repeat split; reflexivity. Qed.
-
-(* the visible traces of two executions on destination {0,1}: a push that stores node 2 and then fails
-   (K = 1), and a fault-free call (K = 2) *)
-Example ex_visible_traces :
-  let d0 := dst_of_list [0; 1] in
-  dtrace ex_succ (dinit 1 false [4] d0) (snd (dsched ex_succ dpick_late 400 (dinit 1 false [4] d0) []))
-    = [AStore 2; AFault; ARet true] /\
-  dtrace ex_succ (dinit 2 false [4] d0) (snd (dsched ex_succ dpick_progress 400 (dinit 2 false [4] d0) []))
-    = [AStore 2; AStore 3; AStore 4; ARet false].
-Proof. vm_compute. split; reflexivity. Qed.
